@@ -33,18 +33,18 @@ import (
 )
 
 type nodeStats struct {
-	Ops, Genuine, Mutated, Accepted, Rejected, Panics, Execs                                int
-	Duplicates                                                                              int
-	DuplicateHist                                                                           map[string]int
-	MutationHist                                                                            map[string]int
-	OutcomeHist                                                                             map[string]int
-	Monitors                                                                                []string
-	Samples                                                                                 []string
-	Notes                                                                                   []string
-	Scenarios                                                                               int
-	C08Compared, C08Resets, TwoRoundScenarios, C08InDealsWindow, ReinitProbes, Reinits      int
-	CancelledRounds                                                                         int
-	C08Late, C08StampsMoved, PrefilledResults, JSONVariants, KeylessReinits, ReinitVariants int
+	Ops, Genuine, Mutated, Accepted, Rejected, Panics, Execs                                               int
+	Duplicates                                                                                             int
+	DuplicateHist                                                                                          map[string]int
+	MutationHist                                                                                           map[string]int
+	OutcomeHist                                                                                            map[string]int
+	Monitors                                                                                               []string
+	Samples                                                                                                []string
+	Notes                                                                                                  []string
+	Scenarios                                                                                              int
+	C08Compared, C08Resets, TwoRoundScenarios, C08InDealsWindow, ReinitProbes, Reinits                     int
+	CancelledRounds                                                                                        int
+	C08Late, C08StampsMoved, PrefilledResults, JSONVariants, KeylessReinits, ReinitVariants, ForgedOwnName int
 }
 
 func tsTok(t time.Time) string {
@@ -466,6 +466,8 @@ func (r *nodeRun) feedOp(c *cluster, n *vnode, m storage.Message, kind, opName s
 		if i := strings.Index(histKind[4:], ":"); i > 0 {
 			histKind = histKind[:4+i] // by kind of variant; the field and value are in the operation script
 		}
+	} else if i := strings.Index(histKind, ">"); i > 0 {
+		histKind = histKind[:i]
 	}
 	r.st.OutcomeHist[histKind+"/"+outcome]++
 	if outcome == "panic" {
@@ -572,11 +574,13 @@ func (r *nodeRun) mutate(c *cluster, obs *vnode, m storage.Message, otherRound s
 			}
 		}
 		// C10(2): replay under another event name / another round
-		for _, ev := range []string{"event_sig_proposal_decline_by_participant", "event_dkg_commit_confirm_canceled_by_error", "event_signing_partial_sign_error_received", "event_dkg_master_key_confirm_received"} {
-			if ev != m.Event && r.rng.Intn(3) == 0 {
+		// (every event a participant can post; the name of the variant says which, so that each pair (made for, posted as) is
+		// a case of its own)
+		for _, ev := range publicEvents {
+			if ev != m.Event {
 				x = clone()
 				x.Event = ev
-				add("replay-other-event", "C10", x, true)
+				add("replay-other-event>"+ev, "C10", x, true)
 			}
 		}
 		if otherRound != "" && otherRound != m.DkgRoundID {
@@ -666,6 +670,12 @@ func (r *nodeRun) mutate(c *cluster, obs *vnode, m storage.Message, otherRound s
 	return out
 }
 
+// publicEvents: the events of the three round machines that arrive in board messages, and the two signature broadcasts
+var publicEvents = []string{"event_sig_proposal_init", "event_sig_proposal_confirm_by_participant", "event_sig_proposal_decline_by_participant",
+	"event_dkg_commit_confirm_received", "event_dkg_deal_confirm_received", "event_dkg_response_confirm_received", "event_dkg_master_key_confirm_received",
+	"event_dkg_commit_confirm_canceled_by_error", "event_dkg_deal_confirm_canceled_by_error", "event_dkg_response_confirm_canceled_by_error", "event_dkg_master_key_confirm_canceled_by_error",
+	"event_signing_start", "event_signing_partial_sign_received", "event_signing_partial_sign_error_received", "signature_reconstructed", "signature_reconstruction_failed"}
+
 func stripFreshRounds(s string) string {
 	// before fix 463256a a rejected message left an empty round behind for an unknown round id and this
 	// function removed such rounds before comparing; now the whole state is compared
@@ -720,7 +730,7 @@ func (r *nodeRun) scenario(outDir string, n, t int, twoRounds bool) {
 				all := r.mutate(c, obs, m, otherRound)
 				var muts, jmuts []mutation
 				for _, mu := range all {
-					if strings.HasPrefix(mu.name, "json-") {
+					if strings.HasPrefix(mu.name, "json-") || strings.HasPrefix(mu.name, "replay-other-event>") {
 						jmuts = append(jmuts, mu)
 					} else {
 						muts = append(muts, mu)
@@ -732,9 +742,9 @@ func (r *nodeRun) scenario(outDir string, n, t int, twoRounds bool) {
 					tj := r.tried[m.Event+"/"+jmuts[j].name+"/b"] || r.tried[m.Event+"/"+jmuts[j].name+"/a"]
 					return !ti && tj
 				})
-				jsonPer := 8
+				jsonPer := 12
 				if r.tier == "thorough" {
-					jsonPer = 60
+					jsonPer = 80
 				}
 				if len(jmuts) > jsonPer {
 					jmuts = jmuts[:jsonPer]
@@ -769,6 +779,8 @@ func (r *nodeRun) scenario(outDir string, n, t int, twoRounds bool) {
 						if i := strings.IndexAny(histName, ":"); i > 0 {
 							histName = histName[:i] // the histogram by kind; the coverage-first choice is by (event, field, value)
 						}
+					} else if i := strings.Index(histName, ">"); i > 0 {
+						histName = histName[:i]
 					}
 					r.st.MutationHist[histName+"/"+res.outcome]++
 					if mu.shouldReject {
@@ -944,6 +956,26 @@ func (r *nodeRun) scenario(outDir string, n, t int, twoRounds bool) {
 		pumpAll(20)
 		pumpAll(20)
 	}
+	// junk that looks different to different readers: for every node a signing proposal in ITS OWN name (its participant id, a
+	// signature that does not verify). Whether a message is accepted may not depend on who reads it: all reject it, and the
+	// nodes still agree afterwards (C08; the sender field of a board message is not authenticated)
+	for i, nd := range c.nodes {
+		inst, err := nd.fsmSvc.GetFSMInstance(round, false)
+		if err != nil {
+			continue
+		}
+		pid, err := inst.GetIDByUsername(nd.name)
+		if err != nil {
+			continue
+		}
+		req := requests.SigningBatchProposalStartRequest{BatchID: fmt.Sprintf("forged-in-the-name-of-%d", i), ParticipantId: pid, CreatedAt: time.Now(),
+			SigningTasks: []requests.SigningTask{{MessageID: "forged", File: "forged.bin", Payload: []byte("never proposed by its alleged sender")}}}
+		bz, _ := json.Marshal(req)
+		c.nodes[(i+1)%n].stg.Send(storage.Message{ID: fmt.Sprintf("forged-own-%d-%d", r.st.Scenarios, i), DkgRoundID: round, Event: "event_signing_start", Data: bz,
+			Signature: bytes.Repeat([]byte{byte(i + 1)}, ed25519.SignatureSize), SenderAddr: nd.name})
+		r.st.ForgedOwnName++
+	}
+	pumpAll(4)
 	r.c08Checks(c, obs, rounds)
 	r.resetObserved(c, obs)
 	// every third time the file names no new communication key for one of the OTHER participants (an operator left it out of
